@@ -150,6 +150,21 @@ check("C34", "E2 enum", "exploration",
       "Every ordered suite tree with <=4 cases, outcome assignments, and every filter set of size <=2 drawn from two --grep patterns, file/glob paths and --path file:L for every line L: the generated .elk.test is registered and run in-process the way cmd/elk does (and a subset through the real `elk test` binary built from /repo); the executed multiset must equal the cases selected by a 40-line independent selector and the exit status must be failure exactly when an executed case failed or errored.",
       "before/after hooks and describes nested deeper than 2 are outside the space; a second --grep overrides the first in the CLI and is not part of the space")
 
+check("C03", "E2 enum", "exploration",
+      "bounded-exhaustive enumeration of byte strings, token sequences, regex bodies x flag sets and program prefixes through lexer, parser, regex pipeline and type checker under recover and a per-input hang detector",
+      "All byte strings of length <=4 (thorough 5) over 26 bytes, all sequences of <=2 lexemes over 285 lexemes and of 3 (thorough 4) over 48 core lexemes (clean parses are also type-checked and their diagnostics rendered), regex bodies of length <=3 (4) over 25 characters x 64 flag sets, and all 3 351 byte prefixes of 283 programs through the incremental checker: any Go panic or an input still running after 30 s with an unchanging stack is a violation.",
+      "the hang threshold is wall-clock (30 s per single input, stack sampled 7 times); macro expansion only through the corpus")
+
+check("C04", "E2 enum", "exploration",
+      "exhaustive enumeration of all strings of <=4 (thorough 5) units over two alphabets (ASCII mode openers; multi-byte / invalid UTF-8 / CR / LF) in normal and embellished lexing mode, span/line/column invariants and Colorize round trip",
+      "For 1.8 M (thorough 55.9 M) inputs every token's span must lie inside the input, in order, non-overlapping and on character boundaries, its start and end line/column must equal the position computed from the byte offset (convention documented by lexer tests), and stripping ANSI codes from Colorize / ColorizeEmbellishedText output must give back the input byte for byte.",
+      "ESC is excluded from the alphabets so that stripping is well defined; the end position of a token ending in a newline is not asserted")
+
+check("C05", "E2 enum", "exploration",
+      "bounded-exhaustive template-grammar enumeration (532 templates; all hole pairs x class representatives, thorough full depth 2 + depth-3 spines) with parse -> String() -> parse structural comparison ignoring locations",
+      "2.96 M (thorough 22.2 M) programs built from expression, declaration, pattern and type templates taken from the parser's production comments: when the first parse is clean the printed text must parse cleanly to a structurally equal tree (reflective comparison ignoring loc/typ/static); a localiser names the smallest construction at fault.",
+      "programs the parser re-associates differently from the intended tree are skipped and counted; the structural parenthesisation family of the printers is listed as known findings (131 signatures)")
+
 NOT_YET = "check not built yet in this round (planned, see DESIGN.md section 5)"
 NA = {}
 
